@@ -171,7 +171,7 @@ func kindGrid(progs []*c19Prog, baseSeed uint64) []*Scenario {
 			mk(coff, func(s *Scenario) { s.Enc, s.DecoSeed, s.CRLF = e, s.Seed|v, v == 2 })
 		}
 	}
-	for brk := 1; brk <= 4; brk++ { // token damage: first / middle / last line, with and without a final newline
+	for brk := 1; brk <= 7; brk++ { // token damage: first / middle / last line, with and without a final newline
 		for _, pos := range []int{0, len(flat.Header) + len(flat.Body)/2, len(flat.Header) + len(flat.Body) - 1} {
 			for _, nofinal := range []bool{false, true} {
 				brk, pos, nofinal := brk, pos, nofinal
@@ -243,7 +243,7 @@ func kindGrid(progs []*c19Prog, baseSeed uint64) []*Scenario {
 	// token damage under every readable kind of source (the diagnostic names the source)
 	for _, k := range allSrcKinds {
 		k := k
-		mk(flat, func(s *Scenario) { s.SrcKind, s.Break, s.BreakLine = k, 1+int(s.Seed%4), len(flat.Header)+1 })
+		mk(flat, func(s *Scenario) { s.SrcKind, s.Break, s.BreakLine = k, 1+int(s.Seed%7), len(flat.Header)+1 })
 	}
 	mk(flat, func(s *Scenario) { s.Argv0 = "nask" })
 	mk(flat, func(s *Scenario) {
@@ -323,7 +323,7 @@ func (c *c19Ctx) genScenario(seed uint64, progs []*c19Prog) *Scenario {
 		s.SrcKind = "barename" // switches next to bare names: option parsing may swallow an unusual first character
 	}
 	if r.Chance(1, 16) && len(s.Header)+len(s.Body) > 0 {
-		s.Break = 1 + r.Intn(4)
+		s.Break = 1 + r.Intn(7)
 		s.BreakLine = r.Intn(len(s.Header) + len(s.Body))
 	}
 	dstKinds := []string{"absent", "empty", "shorter", "equal", "longer", "old_image", "ro_file", "ro_dir", "parent_missing", "parent_is_file", "is_dir", "symlink_file", "dangling_symlink", "dev_full", "relative", "dotdot", "longname", "emptyarg", "dev_null", "trailing_slash", "dir_no_search", "hardlink_to_src", "symlink_to_src", "barename", "rw_file_in_ro_dir", "dotdot_via_symlink", "other_writable", "symlink_loop", "fifo", "image_with_tail", "image_prefix", "same_image"}
